@@ -86,6 +86,11 @@ class UnitGen:
             if i in fwd_static: q = q.replace('static ', '')      # the definition omits `static`: linkage comes from the first declaration (C11 6.2.2p5)
             lines.append('%sint %s(int x) {%s if (x <= 0) return %d; return %s; }' % (q, names[i], addr, i + 1, calls))
             fs.append((names[i], kinds[i], [names[j] for j in refs]))
+            # a reference from a FILE-SCOPE initializer (between two function definitions, or after the last): it makes its target a root
+            if rng.random() < 0.2:
+                j = rng.randrange(n)
+                lines.append('int (*fp%d_%d)(int) = %s%s;' % (self.uid, i, rng.choice(['', '&']), names[j]))
+                fs.append(('@init%d' % i, 'plain', [names[j]]))
         return lines, fs
 
 def main():
@@ -163,6 +168,7 @@ def main():
         live = set(int(x) for x in (mo[2 * ui + 1].split() if 2 * ui + 1 < len(mo) else []))
         fidx = {n: i + 1 for i, (n, _, _) in enumerate(fs)}
         for n, k, refs in fs:
+            if n.startswith('@'): continue          # pseudo root: a file-scope initializer
             a, b = cs.get(n), gs.get(n)
             if (a is None) != (b is None) or (a and b and a[0] != b[0]):
                 run.violation(dict(kind='function-symbol', unit=text, name=n, declared=k, chibicc=a, gcc=b, how='nm --defined-only: is the function emitted, and with which binding (T global / t local)'), dict(area='unit', construct='function-symbol'))
@@ -188,9 +194,14 @@ def main():
             u.append('_Thread_local int tl%d = %d; static _Thread_local int stl = %d;' % (tag, tag, tag * 7))
             u.append('static inline int helper%d(int x) { return x * %d; }' % (tag, tag + 1))
             u.append('const char *str%d(void) { return "unit%d"; }' % (tag, tag))
+            u.append('int tget%d(void) { static _Thread_local int per = %d; static int shared; per += 1; shared += 1; stl += 1000; return per * 100 + shared + stl; }' % (tag, tag * 3))
             u.append('int get%d(void) { int s = bump() + bump() + tl%d + stl + helper%d(2); %s return s; }' % (tag, tag, tag, ' '.join('s += sh%d++;' % i for i in range(nshared))))
         u1.append('int get2(void); int get3(void); const char *str2(void); const char *str3(void); extern _Thread_local int tl2;')
-        u1.append('int main(void) { int a = get1(), b = get2(), c = get3(), e = get1(); tl2 += 5; printf("%d %d %d %d %d %s %s %s\\n", a, b, c, e, get2(), str1(), str2(), str3()); return 0; }')
+        u1.append('int tget2(void); int tget3(void); typedef unsigned long pthread_t; int pthread_create(pthread_t *, void *, void *(*)(void *), void *); int pthread_join(pthread_t, void **);')
+        u1.append('static void *th(void *p) { int *r = p; r[0] = tget1(); r[1] = tget2(); r[2] = tget3(); return 0; }')
+        u1.append('int main(void) { int a = get1(), b = get2(), c = get3(), e = get1(); tl2 += 5; printf("%d %d %d %d %d %s %s %s\\n", a, b, c, e, get2(), str1(), str2(), str3());'
+                  ' int m1[3] = { tget1(), tget2(), tget3() }, t[3]; pthread_t id; pthread_create(&id, 0, th, t); pthread_join(id, 0); int m2[3] = { tget1(), tget2(), tget3() };'
+                  ' printf("%d %d %d | %d %d %d | %d %d %d\\n", m1[0], m1[1], m1[2], t[0], t[1], t[2], m2[0], m2[1], m2[2]); return 0; }')
         for nm_, u in (('a.c', u1), ('b.c', u2), ('c.c', u3)): open(os.path.join(d, nm_), 'w').write('\n'.join(u) + '\n')
         def build(cc, cfg):
             comp = [chibi] if cc == 'chibicc' else ['gcc', '-w', '-O0'] + (['-fcommon'] if cfg != 'nocommon' else [])
